@@ -178,12 +178,12 @@ func specMin(a int, b int) int {
 // ---------- encoding (safety-level contracts; the functional contracts of C01/C07 are stated further below) ----------
 
 // assumed contracts of the standard library
-//@ contract (net.IP).To4
-//@   trusted
-//@   ensures result == nil || len(result) == 4
-//@   ensures len(ip) == 4 ==> result == ip
-//@   ensures len(ip) != 4 && len(ip) != 16 ==> result == nil
-//@   ensures result != nil ==> ref(result) == ref(ip)
+// SpecIs4In6: a 16-byte address in IPv4-mapped form (::ffff:a.b.c.d)
+func SpecIs4In6(s string) bool {
+	return len(s) == 16 && s[0] == 0 && s[1] == 0 && s[2] == 0 && s[3] == 0 && s[4] == 0 && s[5] == 0 && s[6] == 0 && s[7] == 0 && s[8] == 0 && s[9] == 0 && s[10] == 255 && s[11] == 255
+}
+
+// the contract of (net.IP).To4 is in /verif/engine/extern/net.contracts (verified against the standard library source)
 
 //@ contract sort.Ints
 //@   trusted
@@ -294,9 +294,22 @@ func specHeaderV4(op int, htype int, hlen int, hops int, xid string, secs int, f
 //@ contract parserFor$1
 //@   modifies vendorParser
 
+// SpecMaskOnes: the prefix length a netmask denotes (net.IPMask.Size's first result); abstract: only the two facts the
+// trusted contracts of net.CIDRMask and net.IPMask.Size state about it are used
+//@ contract SpecMaskOnes
+//@   trusted
+//@   ensures 0 <= result && result <= 8*len(s)
+func SpecMaskOnes(s string) int { return 0 }
+
 //@ contract net.CIDRMask
 //@   trusted
 //@   ensures fresh(result)
+//@   ensures[size] 0 <= ones && ones <= bits && (bits == 32 || bits == 128) ==> result != nil && len(result) == bits/8 && SpecMaskOnes(string(result)) == ones
+//@   ensures[invalid] !(0 <= ones && ones <= bits && (bits == 32 || bits == 128)) ==> result == nil
+
+//@ contract (net.IPMask).Size
+//@   trusted
+//@   ensures result0 == SpecMaskOnes(string(m)) && (result1 == 8*len(m) || (result0 == 0 && result1 == 0))
 
 // ---------- C17: typed option values and accessors ----------
 // Each value type's FromBytes accepts exactly the RFC layout of its type and reads the RFC value; each accessor returns
